@@ -1,11 +1,16 @@
 """Engines other than the Tracked-history interpreter (C13-C19)."""
+import json
+import os
+import subprocess
 import sys
+import time
+
 import cbcheck as cc
 
 
 def setup():
     ok = True
-    for v in ["release", "checked"]:
+    for v in ["release", "checked", "eio", "eio-async", "eio-both"]:
         r, info = cc.build(v, fatal=False)
         cc.log(f"build {v}: {'ok ' + info if r else 'FAILED'}")
         if not r:
@@ -14,9 +19,110 @@ def setup():
     sys.exit(0 if ok else 1)
 
 
+def run_reports(prop, tier, seed, runs, replay_sub, assumptions, rule, scope):
+    """runs: list of (label, variant, argv-after-binary).  Each run writes a report with
+    'enumerative'/'proptest'/'failure' members like the interpreter engine."""
+    t0 = time.time()
+    os.makedirs(cc.OUT, exist_ok=True)
+    # regression cases first
+    nreg = 0
+    reg_dir = os.path.join(cc.ROOT, "regressions")
+    for name in sorted(os.listdir(reg_dir)) if os.path.isdir(reg_dir) else []:
+        path = os.path.join(reg_dir, name)
+        try:
+            meta = json.load(open(path))
+        except Exception:
+            continue
+        if meta.get("property") != prop or "case" not in meta:
+            continue
+        for label, variant, _ in runs:
+            cc.build(variant)
+            p = subprocess.run([cc.binary(variant), replay_sub, path], stdout=subprocess.PIPE, stderr=subprocess.STDOUT, text=True, timeout=120)
+            if p.returncode == 5:
+                continue
+            nreg += 1
+            if p.returncode != 0:
+                cc.log(p.stdout.strip()[-1500:])
+                cc.log(f"VIOLATION property={prop} replay={path}")
+                cc.write_min_evidence(prop, tier, seed, time.time() - t0, 1, f"regression {name} fails on {label}")
+                sys.exit(1)
+    reports = {}
+    violation = None
+    for label, variant, argv in runs:
+        cc.build(variant)
+        out = os.path.join(cc.OUT, f"{prop}.{label}.json")
+        if os.path.exists(out):
+            os.remove(out)
+        cmd = [cc.binary(variant)] + argv + ["--tier", tier, "--seed", str(seed), "--out", out]
+        try:
+            p = subprocess.run(cmd, stdout=subprocess.PIPE, stderr=subprocess.STDOUT, text=True, timeout=7200)
+        except subprocess.TimeoutExpired:
+            cc.write_min_evidence(prop, tier, seed, time.time() - t0, 0, f"timeout on {label}")
+            cc.inconclusive(f"property={prop} run {label} exceeded the time limit")
+        if p.returncode != 0 or not os.path.exists(out):
+            cc.log(p.stdout[-2000:])
+            cc.write_min_evidence(prop, tier, seed, time.time() - t0, 0, f"engine exit {p.returncode} on {label}")
+            cc.inconclusive(f"property={prop} run {label}: engine exit {p.returncode}")
+        rep = json.load(open(out))
+        rep["rule"] = rule
+        reports[label] = rep
+        if rep.get("failure"):
+            f = rep["failure"]
+            path = cc.save_replay(prop, {"property": prop, "build": variant, "label": label, "case": f["case"],
+                                         "message": f["message"], "rendered": f["rendered"], "generator": f["generator"], "seed": seed})
+            cc.log(f"failing case ({f['generator']}, {label}): {f['rendered']}")
+            cc.log(f"  {f['message']}")
+            violation = path
+            break
+    wall = time.time() - t0
+    cov = cc.merge_reports(prop, reports)
+    cov["rule"] = rule
+    cov["exhaustive_scope"] = scope
+    cov["regression_cases_replayed"] = nreg
+    cc.write_evidence(prop, tier, seed, cov, wall, 1 if violation else 0, assumptions)
+    if violation:
+        cc.log(f"VIOLATION property={prop} replay={violation}")
+        sys.exit(1)
+    cc.log(f"OK property={prop} tier={tier} evaluations={cov['evaluations']} distinct_nontrivial={cov['distinct_nontrivial']} wall={wall:.1f}s")
+    sys.exit(0)
+
+
+IO_RULE = ("byte-stream cases: exhaustive single steps and (small capacities) all pairs of steps from every layout of capacities 0..=8 "
+           "under three fillings of the unoccupied bytes, plus seeded proptest histories up to capacity 256; non-trivial: the transfer "
+           "was partial/clamped (destination shorter than the contents, write longer than the free space, consume beyond the length), "
+           "the contents or the free space crossed the physical wrap point, or N = 0; distinct by case hash")
+
+
 def run(prop, tier, seed):
+    if prop == "C14":
+        runs = [("checked", "checked", ["io", "C14", "--apis", "std"]), ("release", "release", ["io", "C14", "--apis", "std"])]
+        return run_reports(prop, tier, seed, runs, "replay-io",
+                           ["the byte-queue model (written from the std::io trait documentation and the property statement) is the specification"],
+                           IO_RULE, "all layouts of capacities 0..=8 x every single I/O step with every size class (and all pairs of steps for N<=4, N<=6 thorough)")
+    if prop == "C16":
+        runs = [("embedded-io", "eio", ["io", "C16", "--apis", "eio"]),
+                ("embedded-io-async", "eio-async", ["io", "C16", "--apis", "eio-async"]),
+                ("both-features", "eio-both", ["io", "C16", "--apis", "eio,eio-async"])]
+        return run_reports(prop, tier, seed, runs, "replay-io",
+                           ["std::io behaviour is itself checked against the byte-queue model in the same run (and by C14)",
+                            "async methods are polled exactly once with a no-op waker; Pending is a violation"],
+                           "differential: " + IO_RULE, "as C14, for each of the three feature configurations")
     cc.inconclusive(f"property {prop} has no engine yet")
 
 
 def replay(prop, path):
+    meta = json.load(open(path))
+    if prop in ("C14", "C16"):
+        variants = [meta["build"]] if meta.get("build") in cc.VARIANTS else (["checked", "release"] if prop == "C14" else ["eio-both"])
+        bad = False
+        for v in variants:
+            cc.build(v)
+            p = subprocess.run([cc.binary(v), "replay-io", path], stdout=subprocess.PIPE, stderr=subprocess.STDOUT, text=True, timeout=120)
+            cc.log(f"--- build {v}")
+            cc.log(p.stdout.strip())
+            bad |= p.returncode not in (0, 5)
+        if bad:
+            cc.log(f"VIOLATION property={prop} replay={path}")
+            sys.exit(1)
+        sys.exit(0)
     cc.inconclusive(f"property {prop} has no engine yet")
